@@ -36,6 +36,8 @@ def est_cost(case: dict) -> float:
                 n = gen[1]
             elif gen[0] == 'perm':
                 n = {2: 1, 4: 2, 8: 3, 16: 4}[len(gen[1])]
+            elif gen[0] in ('qperm', 'qperm_cx'):
+                n = len(gen[1])
             else:
                 n = 2
         c *= {1: 0.3, 2: 1.0, 3: 25.0, 4: 400.0}.get(n, 1.0)
